@@ -10,6 +10,26 @@ from .props_sent import L, rand_valid_sentence, rand_bytes, op_line, near_misses
 
 
 def split_payload(rng, payload, n):
+    if rng.random() < 0.2 and len(payload) > n + 2:
+        # one long piece and single characters (first, last or middle piece long): estimates such as
+        # "first length x count" are far off while the total is small
+        rest = list(range(1, n))
+        where = rng.choice(["first", "last", "mid"])
+        L0 = len(payload)
+        if where == "first":
+            cuts = [L0 - (n - 1) + i for i in range(n - 1)]
+        elif where == "last":
+            cuts = list(range(1, n))
+        else:
+            k = rng.randrange(1, n)
+            cuts = list(range(1, k)) + [L0 - (n - k) + i for i in range(n - k)]
+        cuts = sorted(set(c for c in cuts if 0 < c < L0))
+        if len(cuts) == n - 1:
+            pieces, prev = [], 0
+            for c in cuts + [L0]:
+                pieces.append(payload[prev:c])
+                prev = c
+            return pieces
     cuts = sorted(rng.sample(range(1, len(payload)), n - 1))
     pieces, prev = [], 0
     for c in cuts + [len(payload)]:
@@ -63,7 +83,10 @@ def noise_line(rng):
         p_, f_ = gen.valid_message_payload(rng)
         return ais.sentence(p_, fill=f_, nf=1, fn=rng.choice([1, 1, 1, 2]), mid=rng.choice([0, 1, 2, 3, 5, 7, 9]))
     if r < 0.38:
-        # fragment number 0 (with any count and id): rejected by the sequencing, whatever is open
+        # fragment number 0 (with any count and id): rejected by the sequencing, whatever is open; count 0 with number
+        # 1: rejected while a group is open, a one-line message of its own when none is - never a new group
+        if rng.random() < 0.4:
+            return ais.sentence(gen.random_alphabet(rng, 5), nf=0, fn=rng.choice([1, 1, 0, 2]), mid=rng.choice([None, 0, 1, 2, 3, 5]), fill=0)
         return ais.sentence(gen.random_alphabet(rng, 5), nf=rng.choice([1, 2, 3, 9]), fn=0, mid=rng.choice([None, 0, 1, 2, 3, 5]), fill=0)
     if r < 0.42:
         # a fragment of any position, well formed, with a wrong checksum
@@ -136,14 +159,28 @@ class C05:
             kind = rng.choice(["fresh", "abandoned", "completed", "completed-undecodable"])
             if kind == "completed-undecodable":
                 dec = 1
+            if rng.random() < 0.1:
+                # bytes outside the armoring alphabet in the payload: reassembly is about raw bytes; whether they
+                # decode is a matter for the line that completes the group, and only if decoding is asked for there
+                pb = bytearray(payload)
+                for _ in range(rng.choice([1, 2])):
+                    pb[rng.randrange(len(pb))] = rng.choice([0x5A, 0x5E, 0x7E, 0x20, 0x80, 0x78])
+                payload = bytes(pb)
             pieces, lines = frag_lines(rng, payload, fill, nfrag, mid)
             ops = ["N 0", "N 1"]
             for l in prior_history(rng, kind):
                 ops.append(L(l, 0, dec))
+            # the decode flag is an argument of each call: one group in four gets it on for the fragments and off for
+            # the last line (or mixed) - only the flag of the completing call matters
+            mixed = rng.random() < 0.25 and kind != "completed-undecodable"
+            last_dec = dec
             for i, l in enumerate(lines):
                 for _ in range(rng.choice([0, 0, 1, 3])):
                     ops.append("#noise " + L(noise_line(rng), 0, dec))
-                ops.append(f"#frag{i} " + L(l, 0, dec, "o" if (gi + i) % 2 == 0 else "r"))
+                d_i = dec if not mixed else (rng.randrange(2) if i < len(lines) - 1 else 0)
+                last_dec = d_i
+                ops.append(f"#frag{i} " + L(l, 0, d_i, "o" if (gi + i) % 2 == 0 else "r"))
+            dec = last_dec
             ops.append("#whole " + L(ais.sentence(payload, fill=fill), 1, dec))
             yield (f"{kind}", ops)
 
@@ -270,7 +307,7 @@ class C06:
         return self.alphabet() + [(n, k, mid) for n in (2, 3) for k in range(1, n + 1) for mid in (0, 255)]
 
     def mk(self, rng, n, k, mid, tag, big=0, alias=False):
-        payload = bytes([48 + n, 48 + k, 48 + (mid or 0) % 40]) + tag + (gen.random_alphabet(rng, big) if big else b"")
+        payload = bytes([48 + n % 40, 48 + k % 40, 48 + (mid or 0) % 40]) + tag + (gen.random_alphabet(rng, big) if big else b"")
         kw = {}
         if alias:
             # the same numbering spelled in a way only a lenient number parser would take for it (value + 256,
@@ -307,6 +344,27 @@ class C06:
             for dec in (0, 1):
                 ops = ["N 0"] + [L(letters[i], 0, dec) for i in seq]
                 yield ("exhaustive", ops)
+        # groups that declare 10, 12, 40 or 255 fragments, in order, with an interloper now and then: the group is
+        # delivered by its last fragment and by no earlier one
+        for n in (10, 12, 40, 255):
+            for dec in (0, 1):
+                ops = ["N 0"]
+                upto = n if n <= 40 else 14
+                for k in range(1, upto + 1):
+                    ops.append(L(self.mk(rng, n, k, 3, b"g"), 0, dec))
+                    if k in (9, 10) and rng.random() < 0.5:
+                        ops.append(L(self.mk(rng, n, k, 3, b"dup"), 0, dec))
+                yield ("long-group", ops)
+        # NMEA 4.10 grouping parameters in tag blocks say nothing about the sequence id of the sentence itself
+        for _ in range(20 if tier == "quick" else 200):
+            ops = ["N 0"]
+            gid = rng.randrange(1, 200)
+            ida, idb = rng.sample([None, 0, 1, 2, 7], 2)
+            tb = lambda k, n: b"g:%d-%d-%d" % (k, n, gid) + rng.choice([b"", b"*00", b",s:x"])
+            ops.append(L(ais.sentence(b"21a" + gen.random_alphabet(rng, 3), nf=2, fn=1, mid=ida, fill=0, tagblock=tb(1, 2)), 0, 0))
+            ops.append(L(ais.sentence(b"22b" + gen.random_alphabet(rng, 3), nf=2, fn=2, mid=idb, fill=0, tagblock=tb(2, 2)), 0, 0))
+            ops.append(L(ais.sentence(b"22c" + gen.random_alphabet(rng, 3), nf=2, fn=2, mid=ida, fill=0, tagblock=b"g:2-2-%d" % (gid + 1)), 0, 0))
+            yield ("tag-groups", ops)
         for _ in range(300 if tier == "quick" else 5000):
             ops = ["N 0"]
             ln = rng.randrange(5, 60)
@@ -595,6 +653,16 @@ def mixed_stream(rng, tier, n):
             while any(groups):
                 g = rng.choice([g for g in groups if g])
                 ops.append(L(g.pop(0), 0, dec_))
+        elif r < 0.04:
+            # a complete group whose payload holds bytes outside the armoring alphabet, every line with its own
+            # decode flag (on for some fragments, off for others, either for the last)
+            pb = bytearray(gen.random_alphabet(rng, rng.choice([8, 20, 60])))
+            for _ in range(rng.choice([1, 2, 3])):
+                pb[rng.randrange(len(pb))] = rng.choice([0x20, 0x23, 0x2F, 0x58, 0x5F, 0x78, 0x7E, 0x80, 0xFF, 0x00])
+            k = rng.choice([2, 3, 4])
+            _, ls = frag_lines(rng, bytes(pb), 0, k, rng.choice([None, 2, 7]))
+            for l in ls:
+                ops.append(L(l, 0, rng.randrange(2)))
         elif r < 0.05:
             # a group that is started and abandoned
             p = gen.random_alphabet(rng, rng.choice([12, 40, 90]))
@@ -958,10 +1026,39 @@ class C20:
                 lines.append(rng.choice(_near_pool(rng) + 3 * numeric_extremes(rng)).replace(b"\n", b" "))
             else:
                 lines.append(ais.sentence(gen.random_alphabet(rng, 5), cks=0x100 - 1))
+        if rng.random() < 0.4:
+            # the same line twice in a row (merged feeds repeat sentences): the second copy is a line like any other
+            out_ = []
+            for l in lines:
+                out_.append(l)
+                if rng.random() < 0.3:
+                    out_.append(l)
+            lines = out_
         data = b"\n".join(lines)
         if lines and rng.random() < 0.7:
             data += b"\n"
         return data
+
+    def block_streams(self, rng):
+        """Streams whose total size is exactly a power of two (block-buffered readers), ending with and without a
+        newline, the last line being a sentence that must produce its record."""
+        out = []
+        for size in (4096, 8192, 16384, 65536, 262144, 1048576):
+            for nl in (b"", b"\n"):
+                last = rand_valid_sentence(rng, wild=False) + nl
+                lines = []
+                total = len(last)
+                while total < size - 200:
+                    l = rand_valid_sentence(rng, wild=False) if rng.random() < 0.7 else rand_bytes(rng, 30, exclude=b"\n")
+                    lines.append(l)
+                    total += len(l) + 1
+                pad = size - total - 1
+                if pad >= 0:
+                    lines.append(b"x" * pad)
+                    data = b"\n".join(lines) + b"\n" + last
+                    if len(data) == size:
+                        out.append(data)
+        return out
 
     @staticmethod
     def same_records(got, exp, is_out):
@@ -996,6 +1093,7 @@ class C20:
             return
         n = 60 if tier == "quick" else 600
         streams = [b"", b"\n", b"\n\n", b"\xff\n", b"!AIVDM,1,1,,A,15M,0*00", b"\r\n"]
+        streams += self.block_streams(rng)
         streams += [self.stream(rng) for _ in range(n)]
         for data in streams:
             rep.evaluations += 1
